@@ -54,19 +54,18 @@ def subset_tests(ctx, body):
     for c in body.calls:
         if c.item == 'is_empty' and c.args:
             m = pe.root_of(body, c.args[0])
-            if m in diffs: out.append((c.dst['l'], c.bb, True, local_op(diffs[m][0]), diffs[m][1], 'missing.is_empty()'))
+            if m in diffs: out.append((c.dst['l'], c.bb, True, diffs[m][0], diffs[m][1], 'missing.is_empty()'))
         if c.item == 'len' and c.args and pe.root_of(body, c.args[0]) in diffs:
             m = pe.root_of(body, c.args[0])
             for bi, st in body.stmts():
                 rv = st['rv']
                 if rv['k'] == 'bin' and rv['op'] in ('Eq', 'Ne', 'Gt') and any(o['k'] == 'const' and o['v'] == '0_usize' for o in rv['ops']) \
                         and any(o['k'] in ('copy', 'move') and len(T.expr(body, o)) > 4 and T.expr(body, o)[0] == 'call' and T.expr(body, o)[4] == c.bb for o in rv['ops']):
-                    out.append((st['dst']['l'], bi, rv['op'] == 'Eq', local_op(diffs[m][0]), diffs[m][1], 'missing.len() %s 0' % rv['op']))
+                    out.append((st['dst']['l'], bi, rv['op'] == 'Eq', diffs[m][0], diffs[m][1], 'missing.len() %s 0' % rv['op']))
     # (7) a.iter().all(|x| b.contains(x))    (8) a.iter().any(|x| !b.contains(x)) [negated]
     #     normal form: a loop over a that leaves with one bool constant where b does not contain the element, with the other when exhausted
     for lo in T.for_loops(body):
-        a = items.get(lo[0].dst['l'])
-        if a is None or restricted(ctx, body, lo): continue
+        if restricted(ctx, body, lo): continue
         nxt, header, some_bb, none_bb, blocks = lo
         for k in contains_of_item(ctx, body, lo):
             for g in T.guards_from_call(body, k):
@@ -85,7 +84,8 @@ def subset_tests(ctx, body):
                         if b2 not in body.reach([none_bb], {header}): continue
                         if not T.must_pass(body, g.false_bb, {header, b2}, {bi}): continue          # every missing element sets the flag
                         if any(b3 in reg_t and s3['dst'] == d for b3, s3 in body.stmts()): continue      # a contained element does not
-                        out.append((d['l'], bi, not vf, local_op(a), k.args[0], 'a.iter().%s(|x| %sb.contains(x))' % (('any', '!') if vf else ('all', ''))))
+                        A = loop_source(ctx, body, lo, k, items)
+                        if A is not None: out.append((d['l'], bi, not vf, A, k.args[0], 'a.iter().%s(|x| %sb.contains(x))' % (('any', '!') if vf else ('all', ''))))
     return out
 
 
@@ -120,16 +120,68 @@ def difference_collections(ctx, body, items):
         los = [lo for lo in T.for_loops(body) if p.bb in lo[4]]
         if not los: continue
         lo = min(los, key=lambda l: len(l[4]))
-        a = items.get(lo[0].dst['l'])
-        if a is None or a == m or restricted(ctx, body, lo): continue
+        if items.get(lo[0].dst['l']) == m or restricted(ctx, body, lo): continue
         if lo[0].dst['l'] not in ctx.S.slice_operand(body, p.args[1]).locals: continue
         for k in contains_of_item(ctx, body, lo):
             for g in T.guards_from_call(body, k):
                 if g.false_bb is None or g.true_bb is None: continue
                 if p.bb in pe.walk(body, [g.false_bb], stop={lo[1]})[0] and p.bb not in pe.walk(body, [g.true_bb], stop={lo[1]})[0] \
                         and T.must_pass(body, g.false_bb, {lo[1]}, {p.bb}) and all(body.dominates(k.bb, x) for x in [p.bb]) and T.must_pass(body, lo[2], {lo[1]}, {k.bb}):
-                    out[m] = (a, k.args[0])
+                    A = loop_source(ctx, body, lo, k, items)
+                    if A is not None: out[m] = (A, k.args[0])
     return out
+
+
+def loop_source(ctx, body, lo, contains_call, items):
+    """what the elements tested by `b.contains(key)` inside loop `lo` are: the elements of a local id collection
+    (operand of that local), or the ids of self.parameters when the loop runs over the declared parameters themselves
+    (`for p in &self.parameters { .. given.contains(&p.id) .. }`): {'k': 'params-loop', ..}"""
+    a = items.get(lo[0].dst['l'])
+    if a is not None: return local_op(a)
+    for sp in range(1, body.argc + 1):
+        if pe.from_self_field(ctx, body, lo[0].args[0], PI, 'parameters', sp) and ('v1::Parameter', 'id') in pe.prov(ctx, body, contains_call.args[1]):
+            return {'k': 'params-loop', 'self': sp}
+    return None
+
+
+def all_parameter_ids(ctx, body, A, self_param, depth=0):
+    """A is a local set that holds the id of *every* element of self.parameters and is not shrunk afterwards:
+         self.parameters.iter().map(|p| p.id).collect()   (normal form: loop over all parameters, unconditional insert of p.id)
+         for p in &self.parameters { a.insert(p.id); }
+         f(&self)  where f's returned set is built like that (e.g. defined_parameter_ids)"""
+    a = pe.coll_root(body, A)
+    if a is None or depth > 2: return False
+    # no other mutation than inserts
+    ins = [c for c in body.calls if c.item in ('insert', 'push') and re.search(r'(BTreeSet|HashSet|Vec)::<.*>::(insert|push)$', c.name) and c.args and pe.root_of(body, c.args[0]) == a]
+    if any(c not in ins and T.MUT_CALL.search(c.name) and c.args and pe.root_of(body, c.args[0]) == a and '&mut' in body.locals[c.arg_local(0) or 0] for c in body.calls): return False
+    defs = [d for d in body.defs_of(a) if not (d[0] == 'stmt' and d[2]['dst']['p'])]
+    if len(defs) != 1: return False
+    k, bi, d = defs[0]
+    if k == 'stmt':
+        # moved from another local
+        rv = d['rv']
+        if rv['k'] == 'use' and rv['ops'][0]['k'] in ('copy', 'move') and not rv['ops'][0]['pl']['p']: return all_parameter_ids(ctx, body, rv['ops'][0], self_param, depth)
+        return False
+    item = (d.get('ri') or {}).get('item')
+    if item == 'new' and ins:
+        ok = False
+        for c in ins:
+            los = [lo for lo in T.for_loops(body) if c.bb in lo[4]]
+            if not los: return False
+            lo = min(los, key=lambda l: len(l[4]))
+            if not pe.from_self_field(ctx, body, lo[0].args[0], PI, 'parameters', self_param) or restricted(ctx, body, lo): return False
+            if not T.must_pass(body, lo[2], {lo[1]}, {c.bb}): return False
+            p = pe.prov(ctx, body, c.args[1])
+            if ('v1::Parameter', 'id') not in p or not pe.from_self_field(ctx, body, c.args[1], PI, 'parameters', self_param): return False
+            ok = True
+        return ok
+    cb = ctx.F.bodies.get(d.get('rp') or d.get('fp') or '')
+    if cb is not None and cb.kind == 'fn' and not ins:
+        # result of a crate function applied to self
+        idx = [i + 1 for i, x in enumerate(d['args']) if ('param', self_param) in pe.prov(ctx, body, x)]
+        if len(idx) != 1: return False
+        return all_parameter_ids(ctx, pe.lnorm(ctx, cb), local_op(0), idx[0], depth + 1)
+    return False
 
 
 def option_field_projection(ctx, cb, adt, field):
@@ -149,17 +201,23 @@ def check(ctx):
     if body is not None:
         # ---- guard: required ⊆ given, else error
         def operands_ok(A, B):
-            a = ctx.S.slice_operand(body, A); b = ctx.S.slice_operand(body, B)
+            b = ctx.S.slice_operand(body, B)
+            if A['k'] == 'params-loop':        # the loop visits every declared parameter and tests its id (checked by loop_source / restricted)
+                return A['self'] == 1 and b.has_field('v1::Parameters', 'entries') and not b.has_field(PI, 'parameters')
+            a = ctx.S.slice_operand(body, A)
             narrowing = sorted({x.item for x in a.call_objs if x.item in NARROWING})
-            return a.has_field(PI, 'parameters') and a.has_field('v1::Parameter', 'id') and b.has_field('v1::Parameters', 'entries') and not b.has_field(PI, 'parameters') \
-                and not narrowing and not a.has_field(PI, 'objective') and not a.has_field(PI, 'constraints')
+            # A is the set of *all* declared parameter ids (decided on how it is built); if that cannot be decided, the
+            # slice conditions of round 1 (they over-approximate when `&mut self` went through an inlined helper)
+            a_ok = all_parameter_ids(ctx, body, A, 1) or (a.has_field(PI, 'parameters') and a.has_field('v1::Parameter', 'id') and not narrowing
+                                                          and not a.has_field(PI, 'objective') and not a.has_field(PI, 'constraints'))
+            return a_ok and b.has_field('v1::Parameters', 'entries') and not b.has_field(PI, 'parameters')
         tests = subset_tests(ctx, body)
         best = None; seen = []
         for l, bb, pol, A, B, how in tests:
             for g in T.guards_from_local(body, l, bb):
                 ctx.counters['cfg_paths'] += 1
                 seen.append('%s: %s' % (how, g.describe()))
-                if g.requires(pol) and g.dominates_ok_exits() and operands_ok(A, B): best = (how, g, bb); break
+                if pe.guard_requires(body, g, pol) and pe.before_every_ok(body, {g.switch_bb}) and operands_ok(A, B): best = (how, g, bb); break
             if best: break
         R = 'C10.guard/required-subset-of-given'
         if best: ctx.ok(R, 'T-GUARD', body.site(best[2]), guard=best[0], shape=best[1].describe())
@@ -174,7 +232,7 @@ def check(ctx):
             ctx.check(2 in s.params and not s.has_field(PI, 'parameters'), rule + '/state', 'T-CARRY', body.name, 'state passed to partial_evaluate does not derive from the given parameters', body.site(c.bb))
             pe.errflow_calls(ctx, rule + '/error', body, [c], 'error of partial_evaluate')
         def loops_of(c, field):
-            return [lo for lo in loops_over(ctx, body, PI, field) if c.bb in lo[4]]
+            return [lo for lo in T.for_loops(body) if c.bb in lo[4] and pe.from_self_field(ctx, body, lo[0].args[0], PI, field)]
         def all_items(rule, lo, allow_fn=None):
             """every item of the loop reaches the call; the iterator drops nothing (except via `allow_fn`)"""
             si = ctx.S.slice_operand(body, lo[0].args[0])
@@ -182,7 +240,7 @@ def check(ctx):
             bad = sorted({x.item for x in restr if not (allow_fn and allow_fn(x))})
             ctx.check(not bad, rule + '/all-items', 'T-LOOPMUST', body.name, 'the loop iterator is restricted by %s' % bad, body.site(lo[0].bb))
         # objective
-        cand = [c for c in pes if self_is(c, 'v1::Function') and ctx.S.slice_operand(body, c.args[0]).has_field(PI, 'objective')]
+        cand = [c for c in pes if self_is(c, 'v1::Function') and pe.from_self_field(ctx, body, c.args[0], PI, 'objective')]
         ctx.check(bool(cand), 'C10.apply/objective/call', 'T-MUSTCALL', body.name, 'no Function::partial_evaluate call on self.objective', body.site())
         for c in cand[:1]:
             common_rules('C10.apply/objective', c)
@@ -191,19 +249,19 @@ def check(ctx):
                 # `for f in self.objective.iter_mut()` (possibly chained with the constraints' functions): every item, loop before every Ok-exit
                 lo = min(ls, key=lambda l: len(l[4]))
                 via = {c.bb}
-                ok = T.must_pass(body, lo[2], {lo[1]}, via) and all(body.dominates(lo[1], e) for e in oks)
+                ok = T.must_pass(body, lo[2], {lo[1]}, via) and pe.before_every_ok(body, {lo[1]}) and not pe.early_exits(body, set(lo[4]), pe.for_loop_switch(body, lo), lo[1])
                 allow = lambda x: is_function_projection(ctx, body, x)
                 bad = sorted({x.item for x in ctx.S.slice_operand(body, lo[0].args[0]).call_objs if x.item in RESTRICTING and 'Iterator' in (x.trait or '') and not allow(x)})
                 ctx.check(ok and not bad, 'C10.apply/objective/every-path', 'T-MUSTCALL', body.name, 'an Ok-exit is reachable without partially evaluating the objective', body.site(c.bb))
             else:
-                must_pass_or_none(ctx, 'C10.apply/objective/every-path', body, c, PI, 'objective', 'partially evaluating the objective')
+                pe.must_pass_or_none(ctx, 'C10.apply/objective/every-path', body, c, PI, 'objective', 'partially evaluating the objective')
         # constraints: Constraint::partial_evaluate on every element, or Function::partial_evaluate on every element's function
         cand = []
         for c in pes:
-            r = ctx.S.slice_operand(body, c.args[0])
-            if not r.has_field(PI, 'constraints'): continue
+            r = pe.prov(ctx, body, c.args[0])
+            if not pe.from_self_field(ctx, body, c.args[0], PI, 'constraints'): continue
             if self_is(c, 'v1::Constraint') and not re.search(r'v1::Function$', c.self_ty or ''): cand.append((c, 'constraint'))
-            elif self_is(c, 'v1::Function') and r.has_field('v1::Constraint', 'function'): cand.append((c, 'function'))
+            elif self_is(c, 'v1::Function') and ('v1::Constraint', 'function') in r: cand.append((c, 'function'))
         ctx.check(bool(cand), 'C10.apply/constraints/call', 'T-MUSTCALL', body.name, 'no partial_evaluate call on the elements of self.constraints', body.site())
         for c, how in cand[:1]:
             common_rules('C10.apply/constraints', c)
@@ -216,46 +274,59 @@ def check(ctx):
                     via |= {none for sb, some, none in option_field_tests(body, 'v1::Constraint', 'function')}
                 ok = T.must_pass(body, l[2], {l[1]}, via)
                 ctx.check(ok, 'C10.apply/constraints/every-item', 'T-LOOPMUST', body.name, 'a path through the loop body skips `constraint.partial_evaluate`', body.site(l[0].bb))
+                pe.no_early_exit(ctx, 'C10.apply/constraints/every-item/no-early-exit', body, l)
                 all_items('C10.apply/constraints/every-item', l, (lambda x: is_function_projection(ctx, body, x)) if how == 'function' else None)
                 r = ctx.S.slice_operand(body, c.args[0])
                 ctx.check(l[0].dst['l'] in r.locals, 'C10.apply/constraints/receiver', 'T-CARRY', body.name, 'receiver is not the loop item', body.site(c.bb))
-                ctx.check(all(body.dominates(l[1], e) for e in oks), 'C10.apply/constraints/dominates', 'T-MUSTCALL', body.name, 'the constraint loop does not dominate the Ok-exit', body.site(c.bb))
+                ctx.check(pe.before_every_ok(body, {l[1]}), 'C10.apply/constraints/dominates', 'T-MUSTCALL', body.name, 'the constraint loop does not dominate the Ok-exit', body.site(c.bb))
         # ---- nothing else is modified
         writes_only(ctx, 'C10.unchanged/with_parameters', body, {'objective', 'constraints'})
-        # ---- carry
-        aggs = find_aggregates(body, INST)
-        if len(aggs) != 1:
-            ctx.bad('C10.carry/aggregate', 'ANCHOR', body.name, 'expected one v1::Instance aggregate, found %d' % len(aggs))
+        # ---- carry: every field of the returned Instance, however it is filled (aggregate, update syntax, field assignments)
+        src, anchor = pe.struct_field_sources(ctx, body, INST)
+        if src is None:
+            ctx.bad('C10.carry/aggregate', 'ANCHOR', body.name, 'the returned v1::Instance: %s' % anchor)
         else:
-            st = aggs[0][1]
             for f in FIELDS:
-                carry_field(ctx, 'C10.carry/with_parameters/' + f, body, st, f, need_fields=[(PI, f)])
-            sp = carry_field(ctx, 'C10.carry/with_parameters/parameters', body, st, 'parameters', need_params=[2], not_fields=[(PI, 'parameters')])
-            op = agg_field_operand(st, 'parameters')
-            some = False
-            if op and op['k'] in ('copy', 'move'):
-                for k, bi, d in body.defs_of(op['pl']['l']):
-                    if k == 'stmt' and d['rv']['k'] == 'agg' and d['rv']['adt'].endswith('Option::Some'): some = True
+                carry_sources(ctx, 'C10.carry/with_parameters/' + f, body, src.get(f, []), f, need_fields=[(PI, f)])
+            carry_sources(ctx, 'C10.carry/with_parameters/parameters', body, src.get('parameters', []), 'parameters', need_params=[2], not_fields=[(PI, 'parameters')])
+            some = bool(src.get('parameters'))
+            for op in src.get('parameters', []):
+                ex = T.strip_wrappers(T.expr(body, op)) if op['k'] in ('copy', 'move') else ('const',)
+                some = some and ex[0] == 'agg' and ex[1].endswith('Option::Some')
             ctx.check(some, 'C10.carry/with_parameters/parameters-some', 'T-CARRY', body.name, '`parameters` of the result is not Some(given)', body.site())
             fields = ctx.F.adt_fields(INST) or []
             ctx.check(set(fields) == set(FIELDS + ['parameters']), 'C10.carry/field-list', 'T-COVER', body.name, 'v1::Instance field list changed: %s' % sorted(set(fields) ^ set(FIELDS + ['parameters'])), body.site())
     # ---- From<Instance> for ParametricInstance
-    fb = ctx.method('C10.anchor/from', PI, 'from', trait='From', targs=['v1::Instance'])
+    fb = pe.lnorm(ctx, ctx.method('C10.anchor/from', PI, 'from', trait='From', targs=['v1::Instance']))
     if fb is not None:
-        aggs = find_aggregates(fb, PI)
-        if len(aggs) != 1:
-            ctx.bad('C10.from/aggregate', 'ANCHOR', fb.name, 'expected one ParametricInstance aggregate, found %d' % len(aggs))
+        src, anchor = pe.struct_field_sources(ctx, fb, PI)
+        if src is None:
+            ctx.bad('C10.from/aggregate', 'ANCHOR', fb.name, 'the returned ParametricInstance: %s' % anchor)
         else:
-            st = aggs[0][1]
             for f in FIELDS:
-                s = carry_field(ctx, 'C10.from/' + f, fb, st, f, need_fields=[(INST, f)])
+                s = carry_sources(ctx, 'C10.from/' + f, fb, src.get(f, []), f, need_fields=[(INST, f)])
                 # and from no other field of the input
                 if s is not None:
-                    others = sorted(x for a, x in s.fields if a.endswith(INST) and x != f)
+                    others = sorted(x for a, x in s if a.endswith(INST) and x != f)
                     ctx.check(not others, 'C10.from/%s/only' % f, 'T-CARRY', fb.name, 'field `%s` also depends on %s' % (f, others), fb.site())
-            carry_field(ctx, 'C10.from/parameters', fb, st, 'parameters', not_fields=[(INST, 'parameters')])
+            carry_sources(ctx, 'C10.from/parameters', fb, src.get('parameters', []), 'parameters', not_fields=[(INST, 'parameters')])
     pe.unmark(ctx)
-    ctx.floor('C10.guard', 1); ctx.floor('C10.apply', 12); ctx.floor('C10.carry', 11); ctx.floor('C10.from', 17)
+    ctx.floor('C10.guard', 1); ctx.floor('C10.apply', 13); ctx.floor('C10.carry', 11); ctx.floor('C10.from', 17)
+
+
+def carry_sources(ctx, rule, body, ops, what, need_fields=(), not_fields=(), need_params=()):
+    """T-CARRY on every operand that may end up in field `what` of the result; returns the union of the slices' fields"""
+    if not ops:
+        ctx.bad(rule, 'T-CARRY', body.name, 'field `%s` of the result is never set' % what, body.site()); return None
+    detail = []; allf = set()
+    for op in ops:
+        s = slice_op(ctx, body, op); allf |= s.fields
+        missing = ['%s.%s' % (a, f) for a, f in need_fields if not s.has_field(a, f)] + ['parameter _%d' % p for p in need_params if p not in s.params]
+        forbidden = ['%s.%s' % (a, f) for a, f in not_fields if s.has_field(a, f)]
+        if missing: detail.append('field `%s` does not depend on: %s' % (what, ', '.join(missing)))
+        if forbidden: detail.append('field `%s` depends on: %s' % (what, ', '.join(forbidden)))
+    ctx.check(not detail, rule, 'T-CARRY', body.name, '; '.join(sorted(set(detail))), body.site())
+    return allf
 
 
 def is_function_projection(ctx, body, call):
